@@ -37,6 +37,14 @@ new = sorted(set(glob.glob(f'{ROOT}/replays/*.json')) - before)
 os.makedirs(f'{d}/replays', exist_ok=True)
 for p in new:
     shutil.move(p, f'{d}/replays/{os.path.basename(p)}')
-json.dump({'seeded': name, 'tier': 'quick', 'seed': os.environ.get('VERIF_SEED','default'), 'results': res,
-           'caught_by': [c for c in res if res[c]['exit'] == 1]}, open(f'{d}/caught.json','w'), indent=1)
+# runs against /repo itself are the ones that count (caught.json); runs redirected to a scratch worktree
+# are kept apart (caught.scratch.json)
+outname = 'caught.json' if REPO == '/repo' else 'caught.scratch.json'
+merged = {}
+if os.path.exists(f'{d}/{outname}') and os.environ.get('SEED_RUN_MERGE'):
+    merged = json.load(open(f'{d}/{outname}')).get('results', {})
+merged.update(res)
+json.dump({'seeded': name, 'tier': 'quick', 'seed': os.environ.get('VERIF_SEED','default'), 'repo': REPO,
+           'repo_head': subprocess.run(['git','-C',REPO,'log','--format=%h','-1'],capture_output=True,text=True).stdout.strip(),
+           'results': merged, 'caught_by': [c for c in merged if merged[c]['exit'] == 1]}, open(f'{d}/{outname}','w'), indent=1)
 print(name, 'caught_by', [c for c in res if res[c]['exit'] == 1])
